@@ -538,6 +538,26 @@ class Inliner:
             def visit_Lambda(self, n):
                 return n
 
+            def visit_Attribute(self, a):
+                # NT(x, y).field of a NamedTuple class of the repository -> the argument stored in that field
+                self.generic_visit(a)
+                v = a.value
+                if isinstance(v, ast.Call) and isinstance(v.func, (ast.Name, ast.Attribute)) and not any(isinstance(x, ast.Starred) for x in v.args):
+                    try:
+                        r = inl.ctx.prog.resolve_expr(fi.module, v.func, getattr(fi, 'cls', None))
+                    except Exception:
+                        r = None
+                    if r and r[0] == 'class' and 'NamedTuple' in [b.rpartition('.')[2] for b in inl.ctx.prog.external_bases(r[1])]:
+                        fields = [s_.target.id for s_ in r[1].node.body if isinstance(s_, ast.AnnAssign) and isinstance(s_.target, ast.Name)]
+                        if a.attr in fields:
+                            i = fields.index(a.attr)
+                            kw = {k.arg: k.value for k in v.keywords if k.arg}
+                            if a.attr in kw:
+                                return kw[a.attr]
+                            if i < len(v.args):
+                                return v.args[i]
+                return a
+
             def visit_Call(self, c):
                 self.generic_visit(c)
                 f = c.func
